@@ -162,6 +162,7 @@ class Program(object):
         self.target = 'stream'      # 'stream' | 'path'
         self.reuse_objects = False  # one ChannelObject / GroupObject instance re-used with reassigned attributes
         self.precreate_empty = False  # path target: an empty file exists already and the first session appends to it
+        self.fname = 'prog.tdms'    # path target: file name; the index file is documented to be <path>_index whatever the name
         self.source = None          # optional: channels of a file read with TdmsFile.read, passed on as TdmsGroup/TdmsChannel objects
 
     def describe(self):
@@ -175,7 +176,7 @@ class Program(object):
             out.append(so)
         src = None if self.source is None else [(n, t, len(v)) for n, t, v in self.source['channels']]
         return {'version': self.version, 'index': self.index, 'target': self.target, 'sessions': out, 'source_file_channels': src,
-                'reuse_objects': self.reuse_objects, 'precreate_empty': self.precreate_empty}
+                'reuse_objects': self.reuse_objects, 'precreate_empty': self.precreate_empty, 'file_name': self.fname}
 
 
 def gen_program(rng, types_mod, max_sessions=3, max_segments=5, max_objects=5, lens=(0, 1, 2, 3, 7, 20, 50)):
@@ -189,6 +190,7 @@ def gen_program(rng, types_mod, max_sessions=3, max_segments=5, max_objects=5, l
         prog.source = gen_source(rng)
     prog.reuse_objects = rng.random() < 0.2
     prog.precreate_empty = prog.target == 'path' and rng.random() < 0.25
+    prog.fname = rng.choice(['prog.tdms'] * 5 + ['PROG.TDMS', 'capture.dat', 'noextension', 'log.2024.tdms', 'a b.tdms', 'x.tdms.bak'])
     big_budget = [1] if rng.random() < 0.01 else []       # rarely: one array sized at a power-of-two byte boundary
     for _ in range(rng.randint(1, max_sessions)):
         sess = []
@@ -324,10 +326,10 @@ def run_program(prog, nptdms, tmpdir, stream_factory=io.BytesIO):
        log: [(session, segment index, 'accepted' | 'refused:<ExcType>')]"""
     W = nptdms.TdmsWriter
     shadow, log = Shadow(), []
-    path = os.path.join(tmpdir, 'prog.tdms')
-    for p in (path, path + '_index'):
-        if os.path.exists(p):
-            os.remove(p)
+    for stale in os.listdir(tmpdir):
+        if os.path.isfile(os.path.join(tmpdir, stale)):
+            os.remove(os.path.join(tmpdir, stale))      # nothing of an earlier program is left: an index found later was written by this one
+    path = os.path.join(tmpdir, getattr(prog, 'fname', 'prog.tdms'))
     if prog.precreate_empty and prog.target == 'path':
         open(path, 'wb').close()
         if prog.index:
